@@ -180,8 +180,14 @@ package ociauth
 // it only when the iteration is exhausted, so every entry of the document is
 // processed whatever order the map is walked in (the only other way out is
 // the error return for an undecodable auth field).
+// An explicit entry wins: an iteration leaves every entry that is not derived
+// from a URL-form key (derivedFrom empty), other than the one it is visiting,
+// exactly as it is - whatever the visiting order, and whatever the entry holds
+// (also one given only by its "auth" field, not decoded yet, or an empty one).
 //@ func decodeConfigFile
 //@   loop 0 exit exhausted(f.Auths)
+//@   loop 0 step forall k string :: old(in(f.Auths, k)) && old(len(f.Auths[k].derivedFrom)) == 0 && k != addr ==>
+//@     in(f.Auths, k) && f.Auths[k] == old(f.Auths[k])
 
 //@ func decodeAuth
 //@   modifies nothing
